@@ -617,6 +617,7 @@ pub mod extra {
             let mut s = base.clone();
             let si = rng.below(s.sets.len());
             let mut dup = s.sets[si].clone();
+            dup.pre_lets.clear();
             dup.entries.retain(|e| matches!(e, Entry::Rule(_)));
             dup.entries.truncate(1);
             let at = rng.range(si + 1, s.sets.len());
